@@ -31,7 +31,7 @@ _EFFECT_FREE = re.compile(
     r'(^|::)(fmt::|format$|format_err|must_use|Arguments|Argument::|anyhow_kind|Adhoc::new|Trait::new|kind::|log::__private_api|loc$|ByteStr::new|'
     r'encode_string|to_string|Error::msg|anyhow::Error|from_str_nonconst|from_str$|new_display|new_debug|new_v1|Display>::fmt|Debug>::fmt|'
     r'to_owned$|clone$|Error as From|into_error|context|Duration::from_secs|type_id|size_hint|eq$|ne$|cmp$|borrow$|as_ref$|Location::caller|'
-    r'SocketAddrV4::new|SocketAddrV6::new|SocketAddr|Ipv4Addr|Ipv6Addr|as_str$|as_bytes$|len$|is_empty$|ParseIntError|fmt$|write_str$|write_fmt$)')
+    r'concat$|SocketAddrV4::new|SocketAddrV6::new|SocketAddr|Ipv4Addr|Ipv6Addr|as_str$|as_bytes$|len$|is_empty$|ParseIntError|fmt$|write_str$|write_fmt$)')
 
 
 def effect_free(g):
@@ -380,6 +380,15 @@ def _closure_fn(ex, fr, cl, func):
     name = getattr(cl, 'name', None)
     if name is None:
         return None
+    cm = re.search(r'\{closure@[^}]*\}', name)
+    if cm:
+        f = ex.prog.closures.get((fr.fn.crate, cm.group(0)))
+        if f is None:
+            for (cr, k), v in ex.prog.closures.items():
+                if k == cm.group(0):
+                    f = v
+        if f is not None:
+            return f
     mm = re.match(r'^\{closure@(.+?):(\d+):(\d+): (\d+):(\d+)\}$', name)
     if mm:
         # find the closure body by source span: "fn path::{closure#k}" whose dump has the same span in a preceding comment is not
@@ -777,7 +786,7 @@ def _str_to_owned(ex, p, m, a, func, fr):
     return one(Buf('string', arr, off, ln))
 
 
-@model(r'^(?:std::string::)?String::(from_utf8_unchecked|from_utf8)$|^(?:std|core)::str::(from_utf8_unchecked|from_utf8)$')
+@model(r'^(?:std::string::)?String::(from_utf8_unchecked|from_utf8)$|^(?:(?:std|core)::str::)?(from_utf8_unchecked|from_utf8)$')
 def _from_utf8(ex, p, m, a, func, fr):
     arr, off, ln = ex.bytes_view(p.st, a[0])
     kind = 'string' if 'String' in func else 'str'
@@ -973,6 +982,18 @@ def _from_raw_parts(ex, p, m, a, func, fr):
         if isinstance(ptr, Ref):
             s = ex.as_sref(p.st, ptr)
             return one(SRef(s.owner, s.off, n))
+    em = re.search(r"<(?:'_, )?(u16|u32|u64)>$", func)
+    if em:
+        # reinterpretation of bytes as native-endian (little-endian) integers; alignment of the allocation is not modelled
+        from .mir import INT_BITS as IB
+        k = IB[em.group(1)] // 8
+        arr, off, _ln = ex.bytes_view(p.st, ptr)
+        cnt = z3.simplify(n)
+        if z3.is_bv_value(cnt) and cnt.as_long() <= 8:
+            out = z3.K(BV64, bvv(0, 8 * k))
+            for i in range(cnt.as_long()):
+                out = z3.Store(out, bv64(i), z3.Concat(*[z3.Select(arr, off + bv64(i * k + j)) for j in reversed(range(k))]))
+            return one(Arr(out, em.group(1), cnt.as_long()))
     return one(Agg('rawslice', (ptr, (n, 'usize')), func))
 
 
@@ -995,3 +1016,107 @@ def _uninit_index(ex, p, m, a, func, fr):
     s = a[0] if isinstance(a[0], SRef) else ex.as_sref(p.st, a[0])
     st_, en, extra = _range_bounds(m.group(2), a[1], s.len)
     return one(SRef(s.owner, s.off + st_, en - st_), oblig=[(z3.ULE(st_, en), 'slice: index starts after end'), (z3.ULE(en, s.len), 'slice: range end out of bounds')])
+
+
+# --------------------------------------------------------------------------- Vec<T> of non-bytes as bounded lists
+@model(r'^(?:std::vec::)?Vec::<(?!u8>)(.+)>::(new|with_capacity)$')
+def _list_new(ex, p, m, a, func, fr):
+    return one(List(()))
+
+
+@model(r'^(?:std::vec::)?Vec::<(?!u8>)(.+)>::(push|len|is_empty|remove|pop|clear)$')
+def _list_ops(ex, p, m, a, func, fr):
+    op = m.group(2)
+    r = a[0]
+    tr = target_ref(ex, p, r)
+    v = ex.load(p.st, tr.base, tr.proj)
+    if not isinstance(v, List):
+        if isinstance(v, Opaque):
+            return one(Opaque('list op on opaque'))
+        raise Inconclusive('Vec op on %r' % (v,))
+    if op == 'push':
+        nv = List(v.items + (a[1],))
+        return one(U(), apply=lambda q: ex.store(q.st, tr.base, tr.proj, nv))
+    if op == 'len':
+        return one((bv64(len(v.items)), 'usize'))
+    if op == 'is_empty':
+        return one((T if not v.items else F, 'bool'))
+    if op == 'pop':
+        if not v.items:
+            return one(opt_none())
+        return one(opt_some(v.items[-1]), apply=lambda q: ex.store(q.st, tr.base, tr.proj, List(v.items[:-1])))
+    if op == 'remove':
+        idx = z3.simplify(a[1][0])
+        if not z3.is_bv_value(idx):
+            raise Inconclusive('Vec::remove with symbolic index')
+        k = idx.as_long()
+        if k >= len(v.items):
+            return [dict(panic='Vec::remove index out of bounds')]
+        return one(v.items[k], apply=lambda q: ex.store(q.st, tr.base, tr.proj, List(v.items[:k] + v.items[k + 1:])))
+    if op == 'clear':
+        return one(U(), apply=lambda q: ex.store(q.st, tr.base, tr.proj, List(())))
+    return None
+
+
+@model(r'^<(?:std::vec::)?Vec<(?!u8>)(.+)> as (?:std::ops::)?Deref(?:Mut)?>::deref(?:_mut)?$')
+def _list_deref(ex, p, m, a, func, fr):
+    return one(target_ref(ex, p, a[0]))
+
+
+@model(r'^core::slice::<impl \[(?!u8\])(.+)\]>::(len|is_empty|iter|first|last)$')
+def _list_slice_ops(ex, p, m, a, func, fr):
+    op = m.group(2)
+    v = B(ex, p, a[0])
+    if isinstance(v, Arr):
+        if op == 'len':
+            return one((v.nterm(), 'usize'))
+        return None
+    if not isinstance(v, List):
+        return None
+    if op == 'len':
+        return one((bv64(len(v.items)), 'usize'))
+    if op == 'is_empty':
+        return one((T if not v.items else F, 'bool'))
+    if op == 'iter':
+        tr = target_ref(ex, p, a[0]) if isinstance(a[0], Ref) else None
+        return one(Agg('struct', (tr if tr is not None else v, (bv64(0), 'usize')), 'ListIter'))
+    return None
+
+
+@model(r'^<&(?:std::vec::)?Vec<(?!u8>)(.+)> as (?:std::iter::)?IntoIterator>::into_iter$|^<&\[(?!u8\])(.+)\] as (?:std::iter::)?IntoIterator>::into_iter$')
+def _list_into_iter(ex, p, m, a, func, fr):
+    tr = target_ref(ex, p, a[0])
+    return one(Agg('struct', (tr, (bv64(0), 'usize')), 'ListIter'))
+
+
+@model(r'^<(?:std|core)::slice::Iter<\'_, (?!u8>)(.+)> as (?:std::iter::)?Iterator>::next$')
+def _list_iter_next(ex, p, m, a, func, fr):
+    tr = target_ref(ex, p, a[0])
+    it = ex.load(p.st, tr.base, tr.proj)
+    if not (isinstance(it, Agg) and it.name == 'ListIter'):
+        return None
+    src = it.fields[0]
+    lst = B(ex, p, src) if isinstance(src, Ref) else src
+    k = z3.simplify(it.fields[1][0]).as_long()
+    if k >= len(lst.items):
+        return one(opt_none())
+    elem = Ref(src.base, src.proj + (('cindex', k, False),)) if isinstance(src, Ref) else lst.items[k]
+    nit = Agg('struct', (src, (bv64(k + 1), 'usize')), 'ListIter')
+    return one(opt_some(elem), apply=lambda q: ex.store(q.st, tr.base, tr.proj, nit))
+
+
+@model(r'^core::slice::<impl \[u8\]>::(get|first|last)(?:::<usize>)?$')
+def _slice_get(ex, p, m, a, func, fr):
+    arr, off, ln = ex.bytes_view(p.st, a[0])
+    op = m.group(1)
+    if op == 'get':
+        i = a[1][0]
+        ok = z3.ULT(i, ln)
+    elif op == 'first':
+        i = bv64(0)
+        ok = ln != bv64(0)
+    else:
+        i = ln - bv64(1)
+        ok = ln != bv64(0)
+    cell = p.alloc((z3.Select(arr, off + i), 'u8'), 'elem')
+    return [dict(cond=ok, value=opt_some(cell)), dict(cond=z3.Not(ok), value=opt_none())]
